@@ -206,6 +206,18 @@ type C06Scn struct {
 	Normalize     bool      `json:"normalize"`
 	NilCache      bool      `json:"nil_cache,omitempty"`
 	Ops           []C06Op   `json:"ops"`
+	// Gen: generated documents (gendoc.go) appended to the pool for this
+	// scenario; request index len(pool)+i refers to Gen[i]
+	Gen []GenDoc `json:"gen,omitempty"`
+}
+
+// c06ReqAt resolves a request index of a scenario.
+func c06ReqAt(sc *C06Scn, i int) c06Req {
+	if i < len(c06Reqs) {
+		return c06Reqs[i]
+	}
+	g := sc.Gen[i-len(c06Reqs)]
+	return c06Req{Name: fmt.Sprintf("generated-%d", i-len(c06Reqs)), Query: g.Query, Vars: []map[string]interface{}{normaliseJSONInts(g.Vars).(map[string]interface{})}}
 }
 
 type c06 struct{}
@@ -258,6 +270,21 @@ func (p c06) Gen(seed uint64, enum int, tier string) json.RawMessage {
 			work[i] = (work[i-1] + 1) % len(c06Reqs)
 		}
 	}
+	if r.Chance(35) {
+		// generated documents: one structure with two sets of literals (the
+		// normalising cache serves both from one plan), and an unrelated one
+		seedS, w := r.Uint64(), c04GenWorld()
+		size := 5 + r.Intn(20)
+		s.Gen = append(s.Gen, GenQueryDoc2(NewRNG(seedS), NewRNG(r.Uint64()), w, size, true))
+		s.Gen = append(s.Gen, GenQueryDoc2(NewRNG(seedS), NewRNG(r.Uint64()), w, size, true))
+		s.Gen = append(s.Gen, GenQueryDoc(NewRNG(r.Uint64()), w, 5+r.Intn(20), true))
+		for i := range s.Gen {
+			if r.Chance(70) {
+				work = append(work, len(c06Reqs)+i)
+			}
+		}
+		work = append(work, len(c06Reqs), len(c06Reqs)+1)
+	}
 	var gets []int
 	for i := 0; i < n; i++ {
 		switch x := r.Intn(100); {
@@ -267,7 +294,7 @@ func (p c06) Gen(seed uint64, enum int, tier string) json.RawMessage {
 			if r.Chance(25) {
 				op.Schema = 1
 			}
-			if nv := len(c06Reqs[req].Vars); nv > 0 {
+			if nv := len(c06ReqAt(&s, req).Vars); nv > 0 {
 				op.Vars = r.Intn(nv)
 			}
 			gets = append(gets, len(s.Ops))
@@ -275,7 +302,7 @@ func (p c06) Gen(seed uint64, enum int, tier string) json.RawMessage {
 		case x < 85:
 			slot := gets[r.Intn(len(gets))]
 			op := C06Op{Kind: "reexec", Slot: slot}
-			if nv := len(c06Reqs[s.Ops[slot].Req].Vars); nv > 0 {
+			if nv := len(c06ReqAt(&s, s.Ops[slot].Req).Vars); nv > 0 {
 				op.Vars = r.Intn(nv)
 			}
 			s.Ops = append(s.Ops, op)
@@ -404,7 +431,7 @@ func (c06) Run(t TestingT, scn json.RawMessage, tape *Tape) *Outcome {
 			o.Fire("schema-swap", 1)
 			log = append(log, fmt.Sprintf("swap %d", op.Schema))
 		case "get":
-			rq := c06Reqs[op.Req]
+			rq := c06ReqAt(&sc, op.Req)
 			w := worlds[op.Schema]
 			var vars map[string]interface{}
 			if op.Vars < len(rq.Vars) {
@@ -448,7 +475,7 @@ func (c06) Run(t TestingT, scn json.RawMessage, tape *Tape) *Outcome {
 			if !ok || g.pr.Plan == nil {
 				continue
 			}
-			rq := c06Reqs[g.req]
+			rq := c06ReqAt(&sc, g.req)
 			var vars map[string]interface{}
 			if op.Vars < len(rq.Vars) {
 				vars = rq.Vars[op.Vars]
